@@ -379,7 +379,8 @@ def census_unit():
         if missing:
             res.unsupported.append('parse-side loops without a contract: ' + '; '.join(missing))
         return res
-    return Unit('census/parse-side-loops', run, clause='census', backend='native-ground')
+    return Unit('census/parse-side-loops', run, clause='census', backend='native-ground', replay=lambda inputs: growth_battery(0),
+                search=growth_battery)
 
 
 def recursion_unit():
@@ -409,6 +410,12 @@ def recursion_unit():
                     for m in re.finditer(r'\b([A-Z][A-Za-z0-9_]+)\b', src):
                         if m.group(1) in classes and m.group(1) != name:
                             tgt.add(m.group(1))
+                    # a parser that calls itself (cls._parse(...), cls.parse_*(...), Name._parse(...)) is a cycle of length 1
+                    # (the public wrappers parse_immutable / parse_exact_size / parse_mutable of the base class dispatch to
+                    # cls._parse by design: only a _parse* function calling a parse entry point of its own class counts)
+                    if fname.startswith('_parse') and name not in ('ParsableBaseNoABC', 'ParsableBase') and \
+                            re.search(r'\b(cls|self|%s)\.(_parse|parse_immutable|parse_exact_size|parse_mutable|parse)\(' % re.escape(name), src):
+                        tgt.add(name)
             if issubclass(c, RB.ArrayBase):
                 try:
                     p = c.get_param()
@@ -488,7 +495,32 @@ def recursion_unit():
             return dict(reproduced=True, call='SshHostPublicKeyVariant.parse_exact_size(<300 nested certificates, %d bytes>)' % len(wire),
                         expected='a parse error or an object, at constant recursion depth', observed='RecursionError', key='recursion')
         except Exception:
-            return dict(reproduced=False)
+            pass
+        # self-referential inputs for the parsers of nested / indirect structures (compression-pointer style)
+        from cryptoparser.dnsrec.record import DnsNameUncompressed, DnsRecordMx
+        for pcls, data in ((DnsNameUncompressed, b'\xc0\x00'), (DnsNameUncompressed, b'\xc0\x02' * 300 + b'\x01a\x00'), (DnsRecordMx, b'\x00\x0a\xc0\x00')):
+            depth = [0, 0]
+
+            def prof(frame, event, arg):
+                if 'cryptoparser' in frame.f_code.co_filename:
+                    if event == 'call':
+                        depth[0] += 1
+                        depth[1] = max(depth[1], depth[0])
+                    elif event == 'return':
+                        depth[0] -= 1
+            sys.setprofile(prof)
+            try:
+                pcls.parse_immutable(data)
+            except RecursionError:
+                depth[1] = 10 ** 6
+            except Exception:
+                pass
+            finally:
+                sys.setprofile(None)
+            if depth[1] > 60:
+                return dict(reproduced=True, call='%s.parse_immutable(bytes.fromhex(%r))' % (pcls.__name__, data.hex()[:80]),
+                            expected='recursion depth bounded by a constant', observed='call depth %s inside the library' % (
+                                'beyond the recursion limit' if depth[1] >= 10 ** 6 else depth[1]), key='recursion')
         return dict(reproduced=False)
     return Unit('recursion/parse-nesting-graph', run, clause='recursion', backend='native-ground',
                 replay=lambda inputs: nested_certificates(), search=nested_certificates)
@@ -537,7 +569,7 @@ def native_growth(cls, make):
 
 def search_derived(seed, hints=()):
     from cryptoparser.tls.extension import TlsExtensionsClient
-    from cryptoparser.tls.ciphersuite import TlsCipherSuiteVector
+    from cryptoparser.tls.subprotocol import TlsCipherSuiteVector
     def exts(n):
         body = b''.join(b'\xff\x01\x00\x00' for _ in range(n // 4))
         return len(body).to_bytes(2, 'big') + body
@@ -564,6 +596,29 @@ def search_dns(seed, hints=()):
     if w.get('reproduced'):
         return w
     return native_growth(DnsRecordTxt, lambda n: b'\x01a' * (n // 2))
+
+
+def growth_battery(seed=0, hints=()):
+    """native cross-check used when a loop obligation or the census does not decide: line events for inputs of size n and
+    4n across the input-driven parsers (a more than linear growth is replayed as the failing input)"""
+    from cryptoparser.tls.subprotocol import TlsHandshakeClientHello, TlsHandshakeServerHello
+
+    def hello(n, server=False):
+        exts = b''.join((0x4000 + i).to_bytes(2, 'big') + b'\x00\x00' for i in range(max(1, n // 4)))
+        if server:
+            body = b'\x03\x03' + bytes(32) + b'\x00' + b'\x13\x01' + b'\x00' + len(exts).to_bytes(2, 'big') + exts
+            return b'\x02' + len(body).to_bytes(3, 'big') + body
+        body = b'\x03\x03' + bytes(32) + b'\x00' + b'\x00\x02\x13\x01' + b'\x01\x00' + len(exts).to_bytes(2, 'big') + exts
+        return b'\x01' + len(body).to_bytes(3, 'big') + body
+    for cls, make in ((TlsHandshakeClientHello, lambda n: hello(n)), (TlsHandshakeServerHello, lambda n: hello(n, True))):
+        w = native_growth(cls, make)
+        if w.get('reproduced'):
+            return w
+    for f in (search_derived, search_dns, search_x509, search_text_scan):
+        w = f(seed)
+        if w.get('reproduced'):
+            return w
+    return dict(reproduced=False)
 
 
 def units(tier, seed):
